@@ -38,8 +38,6 @@ func (pass *RetypeField) processObject(_ *Visitor, _ *ast.Schema, object ast.Obj
 		if pass.Comments != nil {
 			object.Type.Struct.Fields[i].Comments = pass.Comments
 		}
-
-		break
 	}
 
 	return object, nil
